@@ -66,6 +66,11 @@ def r05a(ck, fb):
         wi = b.calls(re.escape(IM + 'write_index') + '$')
         ck.require(len(wi) == 1 and (wi[0].dst == 0), 'R05a', '%s:returns-write_index' % fn, b.where(),
                    '%s does not return the result of write_index' % fn)
+        # every path from a catalogue assignment / map insert to the return passes write_index (no shortcut that acknowledges without writing)
+        muts = [bb for (o, f, bb, st) in b.field_writes() if o.endswith('RaftIndexDto')]
+        muts += [s.bb for s in util.mut_calls_on_field(b, 'node_addrs', r'HashMap::<K, V, S, A>::insert$')]
+        ck.require(bool(muts) and bool(wi) and all(cfg.must_pass_before_return(b, m, {s.bb for s in wi}) for m in muts), 'R05a', '%s:no-ack-without-write' % fn, b.where(),
+                   '%s changes the in-memory catalogue and can return (acknowledge) on a path that never calls write_index: the change is lost by a restart' % fn)
         if wi:
             # argument is a clone of inner.raft_index taken after the assignments
             t = Taint(b, place_src=field_place_src('raft_index'))
